@@ -413,7 +413,7 @@ func mismatchProgram() *pj.Program {
 		pj.F("i32", 1, pj.Int32), pj.F("u64", 2, pj.Uint64), pj.F("s64", 3, pj.Sint64), pj.F("fx", 4, pj.Fixed32), pj.F("f32", 5, pj.Float), pj.F("f64", 6, pj.Double),
 		pj.F("bo", 7, pj.Bool), pj.F("st", 8, pj.String), pj.F("by", 9, pj.Bytes), pj.FE("en", 10, "E"), pj.FM("ms", 11, "Inner"),
 		pj.F("li", 12, pj.Int32).Repeated(), pj.F("ls", 13, pj.String).Repeated(), pj.FM("lm", 14, "Inner").Repeated(),
-		pj.F("mp", 15, pj.Int32).MapOf(pj.String), pj.FM("mm", 16, "Inner").MapOf(pj.String), pj.F("ok_f", 20, pj.Int32)}}
+		pj.F("mp", 15, pj.Int32).MapOf(pj.String), pj.FM("mm", 16, "Inner").MapOf(pj.String), pj.F("ld", 17, pj.Double).Repeated(), pj.F("lf", 18, pj.Float).Repeated(), pj.F("ok_f", 20, pj.Int32)}}
 	f := &pj.File{Path: "main.proto", Pkg: pj.Pkg, Enums: []*pj.EnumDecl{pj.EnumE}, Msgs: []*pj.Msg{inner, t}, Svcs: []*pj.Service{pj.OneMethodService("T", "T")}}
 	return &pj.Program{Name: "mismatch", Main: "main.proto", Files: []*pj.File{f}}
 }
@@ -424,15 +424,19 @@ var mmFields = []mmField{
 	{"i32", "number", "int32"}, {"u64", "number", "uint64"}, {"s64", "number", "sint64"}, {"fx", "number", "fixed32"}, {"f32", "number", "float"}, {"f64", "number", "double"},
 	{"bo", "bool", "bool"}, {"st", "string", "string"}, {"by", "bytes", "bytes"}, {"en", "enum", "enum"}, {"ms", "message", "message"},
 	{"li", "list", "list-of-int32"}, {"ls", "list", "list-of-string"}, {"lm", "list", "list-of-message"}, {"mp", "map", "map-of-int32"}, {"mm", "map", "map-of-message"},
+	{"ld", "list", "list-of-double"}, {"lf", "list", "list-of-float"},
 }
 
 var mmValues = []struct{ kind, text string }{
-	{"bool", "true"}, {"number", "5"}, {"string", `"str"`}, {"object", "{}"}, {"object", `{"iv":1}`},
+	{"bool", "true"}, {"number", "5"}, {"number", "1.5"}, {"string", `"str"`}, {"object", "{}"}, {"object", `{"iv":1}`},
 	{"array", "[]"}, {"array", "[1]"}, {"array", `["a"]`}, {"array", "[{}]"},
 }
 
 // mismatching: is `value` an unambiguous kind mismatch for the field?
 func mismatching(f mmField, kind, text string) bool {
+	if text == "1.5" && (f.class == "number" || f.class == "enum") {
+		return false // a fractional literal for an integer field is not counted as a KIND mismatch
+	}
 	switch f.class {
 	case "number":
 		return kind != "number"
@@ -454,7 +458,7 @@ func mismatching(f mmField, kind, text string) bool {
 		case "[]":
 			return false
 		case "[1]":
-			return f.detail != "list-of-int32"
+			return f.detail != "list-of-int32" && f.detail != "list-of-double" && f.detail != "list-of-float"
 		case `["a"]`:
 			return f.detail != "list-of-string"
 		case "[{}]":
